@@ -37,6 +37,13 @@ func cleanup(indexDir string, repos []uint32, now time.Time, shardMerging bool) 
 	trash := getShards(trashDir)
 	tombtones := getTombstonedRepos(indexDir)
 	indexShards := getShards(indexDir)
+	if indexShards == nil {
+		// getShards only returns nil if it could not open indexDir. Treating
+		// that as an empty index would restore trashed shards over the indexed
+		// ones and remove tombstones of repositories that are indexed.
+		errorLog.Printf("failed to list shards in %s, skipping cleanup", indexDir)
+		return
+	}
 
 	// trash: Remove old shards and conflicts with index
 	minAge := now.Add(-24 * time.Hour)
